@@ -107,7 +107,7 @@ class Gen:
                 self.emit(d, "call ext_sub(%s)" % self.ref(visible))
             elif c < 0.7:
                 self.emit(d, "if (%s > 0) %s = %s" % (self.ref(visible), r.choice(PLAIN), self.ref(visible)))
-            elif self.std == "f2008" and depth_left > 0:
+            elif c < 0.82 and self.std == "f2008" and depth_left > 0:
                 self.block(sc, d, visible, depth_left - 1)
             else:
                 self.wrapped(sc, d, visible, depth_left)
@@ -289,12 +289,39 @@ def make_payload(rng, idx, tier):
     return {"seed": rng.getrandbits(48), "std": rng.choice(["f2003", "f2008", "f2008"])}
 
 
+def _tup(x):
+    return tuple(_tup(i) for i in x) if isinstance(x, (list, tuple)) else x
+
+
+def check_raw(payload):
+    """pinned reproducer: source text and the expected table forest [(name|None, [symbols], [modules], [children])]"""
+    std, src = payload["std"], payload["source"]
+    viols = []
+    fp.SYMBOL_TABLES.clear()
+    with monitors.ScopeMonitor() as sm:
+        try:
+            fp.create(std)(free_reader(src))
+        except fp.FortranSyntaxError as e:
+            fp.SYMBOL_TABLES.clear()
+            return {"violations": [viol("valid-program-rejected", str(e)[:200])], "digests": [], "monitors": {}, "tally": {}}
+        dups = list(sm.dups)
+    try:
+        d = compare_forest(_tup(payload["expected"]), got_forest())
+        if d:
+            viols.append(viol(payload.get("key", d[0]), d[1]))
+        elif dups:
+            viols.append(viol(payload.get("key", "duplicate-live-child-table"), "second live child %r under %r" % (dups[0][1], dups[0][0])))
+    finally:
+        fp.SYMBOL_TABLES.clear()
+    return {"violations": viols, "digests": [], "monitors": {"references_checked": 1, "tables_checked": 1}, "tally": {}}
+
+
 def check(payload):
+    if payload.get("mode") == "raw":
+        return check_raw(payload)
     std = payload["std"]
     viols, digs = [], []
     mons = {"references_checked": 0, "tables_checked": 0, "scope_events": 0}
-    if payload.get("source") is not None:
-        src, top, refs = payload["source"], None, None
     g = Gen(payload["seed"], std)
     src, top = g.generate()
     fp.SYMBOL_TABLES.clear()
